@@ -184,7 +184,10 @@ use std::{
     cmp, collections::HashMap, fmt, hash::BuildHasherDefault, io, io::prelude::*, sync::Arc,
 };
 
+#[cfg(not(log4rs_verif))]
 use arc_swap::ArcSwap;
+#[cfg(log4rs_verif)]
+use crate::verif::ArcSwap;
 use fnv::FnvHasher;
 use log::{Level, LevelFilter, Metadata, Record};
 
@@ -194,6 +197,8 @@ pub mod encode;
 pub mod filter;
 #[cfg(feature = "console_writer")]
 mod priv_io;
+#[cfg(log4rs_verif)]
+pub mod verif;
 
 pub use config::{init_config, Config};
 
